@@ -82,11 +82,13 @@ def axisProx (d : Doc) (axis : String) (r : Ref) : Option (List Ref) :=
 /-- §2.3 node tests.  The principal node type is attribute for the attribute axis and element
 otherwise (it is recorded by the parser in `typeTest`); `node()` is `NType.all`.
 A name test compares expanded names: with a namespace binding for the prefix the URI is compared,
-otherwise (no namespace map) the prefix itself. -/
+otherwise (no namespace map) the prefix itself.  `NCName:*` (recorded by the parser as an empty
+local name under a non-empty prefix) "is true for any node of the principal type whose
+expanded-name has the namespace URI that the prefix expands to, regardless of the local part". -/
 def nodeTest (d : Doc) (a : AxisInfo) (r : Ref) : Bool :=
   (a.typeTest == .all || a.typeTest == nodeType d r) &&
   (if a.lname != "" || a.pfx != "" then
-     a.lname == localName d r &&
+     (a.lname == "" || a.lname == localName d r) &&
        (if a.hasNS then a.nsURI == nsURL d r else a.pfx == prefixOf d r)
    else true)
 
